@@ -286,13 +286,17 @@ def _errobj(acc, job, deadline):
         obj = red.ErrorRate(costs={"fp": cfp, "fn": cfn})
         mc.load(obj, y, groups, None)
         wo = obj.signed_weights()
-        return h, h2, wo, obj.gamma(lambda X: h).iloc[0], obj.gamma(lambda X: h2).iloc[0]
+        lam = real("lam", 0)
+        wl = obj.signed_weights(pd.Series([lam], index=obj.index, dtype=object))  # ErrorRate used with an explicit multiplier
+        return h, h2, wo, obj.gamma(lambda X: h).iloc[0], obj.gamma(lambda X: h2).iloc[0], lam, wl
 
     def on_ok(ctx, out):
-        h, h2, wo, e1, e2 = out
+        h, h2, wo, e1, e2, lam, wl = out
         acc.reach(ctx)
         rhs = -core.zsum([term(wo.iloc[i]) * (term(h[i]) - term(h2[i])) for i in range(n)]) / n
         acc.check(ctx, "objective_reweighting_is_error_gradient", term(e1) - term(e2) == rhs, signature="ident:ErrorRate", extra=ex)
+        rhs_l = -core.zsum([term(wl.iloc[i]) * (term(h[i]) - term(h2[i])) for i in range(n)]) / n
+        acc.check(ctx, "errorrate_reweighting_with_multiplier", term(lam) * (term(e1) - term(e2)) == rhs_l, signature="ident:ErrorRate:lambda", extra=ex)
         acc.canary(ctx, "canary_objective_shift", term(e1) - term(e2) == rhs + 1)
 
     acc.explore(run, on_ok, deadline=deadline, max_paths=5000)
@@ -374,6 +378,11 @@ def replay(cex):
         rhs = -float(sum(wo.iloc[i] * (h[i] - h2[i]) for i in range(n))) / n
         if abs(lhs - rhs) > 1e-9 * max(1, abs(lhs)):
             bad.append(f"ErrorRate: gamma(h)-gamma(h')={lhs} but -(1/n)sum w(h-h')={rhs}")
+        lam = f("lam", "2")
+        wl = obj.signed_weights(pd.Series([lam], index=obj.index))
+        rhs_l = -float(sum(wl.iloc[i] * (h[i] - h2[i]) for i in range(n))) / n
+        if abs(lam * lhs - rhs_l) > 1e-9 * max(1, abs(lhs)):
+            bad.append(f"ErrorRate with multiplier {lam}: lambda*(gamma(h)-gamma(h'))={lam * lhs} but -(1/n)sum w(lambda)(h-h')={rhs_l}")
         return {"reproduced": bool(bad), "detail": "; ".join(bad) + f" | y={y} h={h.tolist()} h'={h2.tolist()}"}
     if job["kind"] == "ident":
         h, h2 = np.array([f(f"h{i}") for i in range(n)]), np.array([f(f"k{i}") for i in range(n)])
